@@ -136,3 +136,105 @@ Proof.
   destruct ROWS as (l1 & l2 & G1 & G2 & G3). exists l1, l2. split; [exact G1|]. split; [exact G2|]. split; [exact G3|].
   exact (delete_chars_spec rows e y a1 a2 t k r2 o2 cl cc pc e1 l1 l2 Hy HW HV H0 E Hln G1 G2 G3 X).
 Qed.
+
+(* ====================================================================================== *)
+(* line-wise targets                                                                         *)
+(* ====================================================================================== *)
+Lemma vi_motion_off_nonline b rows top cl cc pc has cnt k row off r o cl' cc' pc' :
+  0 <= off -> vi_motionln b rows top has cnt k row = None ->
+  vi_motion b rows top cl cc pc has cnt k row off = MvOk r o cl' cc' pc' -> 0 <= o.
+Proof.
+  intros H ML E. unfold vi_motion in E. rewrite ML in E.
+  assert (OK : forall p : option (Z * Z), (forall y, p = Some y -> 0 <= snd y) ->
+     match p with Some (r0, o0) => MvOk r0 o0 cl cc pc | None => MvFuel end = MvOk r o cl' cc' pc' -> 0 <= o).
+  { intros p Hp E1. destruct p as [[r0 o0]|]; [|discriminate]. inversion E1; subst. apply (Hp (r, o) eq_refl). }
+  assert (FC : forall cs cmd n, match lbuf_findchar b cs cmd n row off with Some o0 => MvOk row o0 cs cmd pc | None => MvFail cs cmd end
+                 = MvOk r o cl' cc' pc' -> 0 <= o).
+  { intros cs cmd n E1. destruct (lbuf_findchar b cs cmd n row off) eqn:F; [|discriminate]. inversion E1; subst.
+    eapply findchar_nn; eauto. }
+  assert (W : forall f : Z -> Z -> option st3, (forall r o, 0 <= o -> nn3 (f r o)) ->
+            forall y, iter_break (Z.to_nat cnt) (wstep f) (row, off) = Some y -> 0 <= snd y).
+  { intros f Hf y Ey. eapply (iter_break_inv (fun x => 0 <= snd x)); [apply wstep_nn, Hf| |exact Ey]. exact H. }
+  destruct k; try discriminate; try (eapply FC; exact E);
+    try (eapply OK; [|exact E]; intros y Ey; eapply W; [|exact Ey]; intros; first [apply wordend_nn|apply wordbeg_nn]; assumption).
+  - (* h *) eapply OK; [|exact E]. intros y Ey. eapply (iter_break_inv (fun x => 0 <= snd x)); [| |exact Ey]; [|exact H].
+    intros [r0 o0] s y0 Hx Es. unfold vi_nextcol in Es. destruct (getl b r0); [|inversion Es; subst; exact Hx].
+    destruct (_ <? 0); inversion Es; subst; [exact Hx|]. cbn. apply ren_off_nonneg.
+  - (* l *) eapply OK; [|exact E]. intros y Ey. eapply (iter_break_inv (fun x => 0 <= snd x)); [| |exact Ey]; [|exact H].
+    intros [r0 o0] s y0 Hx Es. unfold vi_nextcol in Es. destruct (getl b r0); [|inversion Es; subst; exact Hx].
+    destruct (_ <? 0); inversion Es; subst; [exact Hx|]. cbn. apply ren_off_nonneg.
+  - (* 0 *) inversion E; lia.
+  - (* ^ *) inversion E; subst. pose proof (lbuf_eol_nonneg b r). assert (0 <= lbuf_indents b r) by (unfold lbuf_indents; destruct (getl b _); [apply count_space_nonneg|lia]). lia.
+  - (* $ *) inversion E. apply lbuf_eol_nonneg.
+  - (* | *) inversion E; subst. unfold vi_col2off. destruct (getl b _); [apply ren_off_nonneg|lia].
+  - (* ; *) destruct cl; [discriminate|]. eapply FC; exact E.
+  - (* , *) destruct cl; [discriminate|]. eapply FC; exact E.
+  - (* % *) destruct (lbuf_pair (mfuel b) b row off) as [[[r0 o0]|]|] eqn:P; try discriminate. inversion E; subst.
+    unfold lbuf_pair in P. destruct (pair_scan _ b row off) as [[o1 c]|] eqn:S1; [|discriminate].
+    apply pair_scan_nn in S1; [|exact H]. destruct (index_of c pairs 0); [|discriminate].
+    eapply pair_loop_nn; [|exact P]. exact S1.
+  - (* { *) eapply OK; [|exact E]. intros y Ey. eapply (iter_break_inv (fun x => 0 <= snd x)); [| |exact Ey]; [|exact H].
+    intros x s y0 _ Es. inversion Es. cbn. lia.
+  - (* } *) eapply OK; [|exact E]. intros y Ey. eapply (iter_break_inv (fun x => 0 <= snd x)); [| |exact Ey]; [|exact H].
+    intros x s y0 _ Es. inversion Es. cbn. lia.
+  - (* space *) eapply OK; [|exact E]. intros y Ey. eapply (iter_break_inv (fun x => 0 <= snd x)); [| |exact Ey]; [|exact H].
+    intros [r0 o0] s y0 Hx Es. unfold vi_nextoff, lbuf_lnnext in Es. destruct (getl b r0); [|inversion Es; subst; exact Hx].
+    destruct ((_ <? 0) || _) eqn:B; inversion Es; subst; [exact Hx|]. cbn. apply orb_false_iff in B. lia.
+  - (* ^H *) eapply OK; [|exact E]. intros y Ey. eapply (iter_break_inv (fun x => 0 <= snd x)); [| |exact Ey]; [|exact H].
+    intros [r0 o0] s y0 Hx Es. unfold vi_nextoff, lbuf_lnnext in Es. destruct (getl b r0); [|inversion Es; subst; exact Hx].
+    destruct ((_ <? 0) || _) eqn:B; inversion Es; subst; [exact Hx|]. cbn. apply orb_false_iff in B. lia.
+Qed.
+
+(* ---------- line-wise targets are rows of the buffer ---------- *)
+Lemma motionln_range b rows top has cnt k row r : 0 <= row < blen b -> 0 <= cnt ->
+  vi_motionln b rows top has cnt k row = Some (Some r) -> 0 <= r < blen b.
+Proof.
+  intros Hr Hc E. unfold vi_motionln in E. cbv zeta in E.
+  destruct k; try discriminate; try (destruct has; try discriminate);
+    repeat match type of E with context [if ?c then _ else _] => destruct c eqn:? end; try discriminate;
+    inversion E; subst; clear E; try lia.
+  all: try (assert (Z.max 0 (blen b - 1) * cnt / 100 <= blen b - 1) by (apply Z.div_le_upper_bound; nia);
+            assert (0 <= Z.max 0 (blen b - 1) * cnt / 100) by (apply Z.div_pos; nia); lia).
+Qed.
+Lemma op_target_row b rows s a1 a2 t k r2 cl cc pc o1 : 0 <= v_row s < blen b -> 0 <= a1 -> 0 <= a2 -> 0 <= o1 ->
+  op_target b rows s a1 a2 t o1 = TOk k r2 (-1) cl cc pc -> 0 <= r2 < blen b.
+Proof.
+  intros Hr H1 H2 Ho1 E. unfold op_target in E.
+  set (cnt := (if a1 =? 0 then 1 else a1) * (if a2 =? 0 then 1 else a2)) in *.
+  assert (Hc : 1 <= cnt) by (unfold cnt; destruct (Z.eqb_spec a1 0); destruct (Z.eqb_spec a2 0); nia).
+  destruct t as [k0|].
+  - destruct (vi_motion _ _ _ _ _ _ _ _ _ _ _) eqn:M; try discriminate. inversion E; subst. clear E.
+    unfold vi_motion in M. destruct (vi_motionln b rows (v_top s) _ cnt k (v_row s)) as [[r1|]|] eqn:ML.
+    + inversion M; subst. eapply motionln_range; [exact Hr| |exact ML]. lia.
+    + discriminate.
+    + exfalso. assert (0 <= -1); [|lia].
+      eapply (vi_motion_off_nonline b rows (v_top s) (v_cl s) (v_cc s) (v_pcol s) _ cnt k (v_row s) o1); [exact Ho1|exact ML|].
+      unfold vi_motion. rewrite ML. exact M.
+  - inversion E; subst. destruct (Z.ltb_spec (Z.min (v_row s + cnt - 1) (blen b - 1)) 0); lia.
+Qed.
+
+(* line-wise delete without side conditions on the region *)
+Lemma delete_lines_total rows e y a1 a2 t k r2 o2 cl cc pc e1 : plain_reg y ->
+  let b := s_buf e in let s := s_vs e in
+  let o1 := ren_noeol (getl b (v_row s)) (v_off s) in
+  buf_wf b -> buf_valid b -> b <> [] -> cursor_ok b (v_row s) (v_off s) -> 0 <= a1 -> 0 <= a2 ->
+  op_target b rows s a1 a2 t o1 = TOk k r2 o2 cl cc pc ->
+  let g := vc_region b k (v_row s) o1 r2 o2 in
+  g_ln g = true ->
+  exec_op rows e y a1 Od a2 t [] = Some e1 ->
+  0 <= g_r1 g /\ g_r1 g <= g_r2 g /\ g_r2 g < blen b /\
+  reg_get (s_regs e1) y = Some (ViDefs.flat (concat (rows_between b (g_r1 g) (g_r2 g + 1))), true) /\
+  s_buf e1 = firstn (Z.to_nat (g_r1 g)) b ++ skipn (Z.to_nat (g_r2 g + 1)) b /\
+  (g_r2 g + 1 < blen b -> v_row (s_vs e1) = g_r1 g /\ s_buf (exec_put rows e1 y 0 false) = b).
+Proof.
+  intros Hy b s o1 HW HV NE HC Ha1 Ha2 E g Hln X.
+  pose proof (cursor_ok_off _ _ _ HC) as H0. pose proof (cursor_ok_vpos b _ _ NE HC) as V. pose proof (vpos_row _ _ _ V) as Hr.
+  assert (Ho1 : 0 <= o1) by (apply ren_noeol_nonneg, H0).
+  destruct (vc_region_rows b k (v_row s) o1 r2 o2) as (A & B & C). fold g in A, B, C. rewrite Hln in C.
+  assert (Hm : o2 = -1).
+  { destruct (op_target_off b rows s a1 a2 t o1 k r2 o2 cl cc pc Ho1 E) as [P|P]; [|exact P]. destruct (Z.ltb_spec o2 0); [lia|discriminate]. }
+  subst o2. pose proof (op_target_row b rows s a1 a2 t k r2 cl cc pc o1 Hr Ha1 Ha2 Ho1 E) as Hr2.
+  assert (R1 : 0 <= g_r1 g) by lia. assert (R2 : g_r2 g < blen b) by lia.
+  split; [exact R1|]. split; [lia|]. split; [exact R2|].
+  exact (delete_lines_spec rows e y a1 a2 t k r2 (-1) cl cc pc e1 Hy HW HV E Hln R1 R2 X).
+Qed.
